@@ -58,6 +58,9 @@ type Case struct {
 	Revs    []Rev  `json:"revs"`
 	EOL     string `json:"eol,omitempty"`
 	Program []Op   `json:"program"`
+	// Phys: the sequence in which the revisions (indices of Revs, the logical history) are laid out in the file;
+	// empty = in logical order. Sections are chained by /Prev offsets, their place in the file means nothing.
+	Phys []int `json:"phys,omitempty"`
 }
 
 func init() { vr.Register("history", checkCase) }
@@ -184,7 +187,11 @@ func build(c Case) built {
 		}
 		revs = append(revs, rr)
 	}
-	return built{bytes: pdfw.WriteRaw(revs, pdfw.NRef{Num: catalog}, size, c.EOL), latest: latest, size: size}
+	var order []int
+	if len(c.Phys) == len(revs) {
+		order = c.Phys
+	}
+	return built{bytes: pdfw.WriteRawOrdered(revs, pdfw.NRef{Num: catalog}, size, c.EOL, order), latest: latest, size: size}
 }
 
 // ---- oracle -----------------------------------------------------------------
@@ -463,6 +470,13 @@ func genCase(t *rapid.T) Case {
 		}
 		c.Revs = append(c.Revs, rv)
 	}
+	if r >= 2 && rapid.IntRange(0, 3).Draw(t, "physicalOrder") == 0 {
+		idx := make([]int, r)
+		for i := range idx {
+			idx[i] = i
+		}
+		c.Phys = rapid.Permutation(idx).Draw(t, "phys")
+	}
 	size := c.N + 3 + r*c.N + 2*r
 	np := rapid.IntRange(1, 14).Draw(t, "programLen")
 	for i := 0; i < np; i++ {
@@ -510,6 +524,13 @@ func meta(c Case) vr.Meta {
 	if len(kinds) > 1 {
 		nt = true
 		labels = append(labels, "mixed-xref")
+	}
+	for i, p := range c.Phys {
+		if p != i {
+			nt = true
+			labels = append(labels, "sections-out-of-order")
+			break
+		}
 	}
 	labels = append(labels, fmt.Sprintf("revisions:%d", len(c.Revs)))
 	labels = dedup(labels)
@@ -571,6 +592,10 @@ func TestExhaustiveSmall(t *testing.T) {
 			}
 			for num := 0; num <= n+3; num++ {
 				c.Program = append(c.Program, Op{"get", num}, Op{"deep", num}, Op{"resolve", num}, Op{"rdeep", num})
+			}
+			// every sixth history with its three sections laid out in another physical order
+			if perm := [][]int{{2, 1, 0}, {1, 0, 2}, {0, 2, 1}, {2, 0, 1}, {1, 2, 0}}[(h/6)%5]; h%6 == 0 && r == 3 {
+				c.Phys = perm
 			}
 			if !vr.One(t, "history", c, meta(c), checkCase) {
 				return
